@@ -387,7 +387,33 @@ def gen_case(ctx):
             "probe": rng.choice(set_opts) if (set_opts and rng.random() < 0.6) else None}
 
 
+def targeted_cases(ctx):
+    """A few option / input combinations every worker runs first (each is a boundary the random generator reaches rarely):
+    two files whose category sets are nested, with every categorical dissimilarity; --seed 0; a single-annotator-pair file."""
+    rng = ctx.rng
+    out = []
+    for cat_dissim, labels in (("numerical", ["1", "2", "3", "4", "5"]), ("levenshtein", ["N", "NP", "V", "VP", "Det"]),
+                               ("absolute", ["a", "b", "c", "d", "e"])):
+        wide = cases.gen_continuum(rng, n_annot=2, sizes=[5, 5], family="grid", labels=labels, allow_empty=False)
+        for a in wide["ann"]:
+            for k, u in enumerate(wide["ann"][a]):
+                u[2] = labels[k % len(labels)]          # the first file uses every category
+        narrow = cases.gen_continuum(rng, n_annot=2, sizes=[4, 4], family="grid", labels=labels[1:-1], allow_empty=False)
+        out.append({"files": [{"ann": wide["ann"]}, {"ann": narrow["ann"]}], "format": "csv", "separator": ",",
+                    "options": {"seed": rng.choice([0, 7, 4772]), "alpha": rng.choice([None, 2]), "beta": None, "delta": None,
+                                "precision": 0.5, "n_samples": 5, "cat_dissim": cat_dissim, "gamma_cat": True, "gamma_k": True,
+                                "mathet": rng.random() < 0.5, "explicit_separator": False},
+                    "output": rng.choice(["print", "csv", "json"]), "probe": None})
+    return out
+
+
 def run(ctx):
+    for case in targeted_cases(ctx):
+        ctx.begin_case(case)
+        ctx.observe("driver", "in-process")
+        ctx.observe("output", case["output"])
+        ctx.observe("cat_dissim", "targeted:" + str(case["options"]["cat_dissim"]))
+        check_case(ctx, case)
     n_sub = 0
     for i in range(ctx.scale(36, 300)):
         if ctx.out_of_time():
